@@ -180,25 +180,27 @@ Definition ref_step (l : list Z) (o : al_op) : list Z * (bool * Z * list Z) :=
     | Some p => let q := if zlen l =? 0 then 0 else p + 1 in (ins_at (Z.to_nat q) d l, (true, q, []))
     | None => (l, (false, -1, []))
     end
-  | ARem i =>
+  | ARem i cb =>
     match norm_index (zlen l) i with
-    | Some p => (del_at (Z.to_nat p) l, (true, -1, [znth l p]))
+    | Some p => (del_at (Z.to_nat p) l, (true, -1, if cb then [znth l p] else []))
     | None => (l, (false, -1, []))
     end
-  | AClear => ([], (true, -1, filter nonnull l))
+  | AClear cb => ([], (true, -1, if cb then filter nonnull l else []))
   | AEns _ _ => (l, (true, -1, []))
   end.
 
 Definition al_inv (s : alist) : Prop :=
   1 <= acap s < two31 /\ 0 <= asize s <= acap s /\ zlen (nodes s) = acap s.
 
-Definition int_ok (i : Z) : Prop := - two31 < i < two31.
+(* every value of type int, INT_MIN included (the index normalisation negates in 64 bits since
+   fixes/C11-array-list-int-min-index.patch) *)
+Definition int_ok (i : Z) : Prop := - two31 <= i < two31.
 
 Definition al_op_ok (o : al_op) : Prop :=
   match o with
-  | AIns i _ _ | AApp i _ _ | ARem i => int_ok i
+  | AIns i _ _ | AApp i _ _ | ARem i _ => int_ok i
   | AEns c _ => 0 <= c < two64
-  | AClear => True
+  | AClear _ => True
   end.
 
 (* the operation needs new storage and cannot get it (malloc fails, or the
@@ -372,10 +374,10 @@ Proof.
   - unfold al_contents. cbn [asize nodes]. rewrite contents_insert_at by lia. reflexivity.
 Qed.
 
-Lemma al_remove_refines : forall s i, al_inv s -> int_ok i ->
-  al_step_ok s (ARem i) (fst (al_step s (ARem i))) (snd (al_step s (ARem i))).
+Lemma al_remove_refines : forall s i cb, al_inv s -> int_ok i ->
+  al_step_ok s (ARem i cb) (fst (al_step s (ARem i cb))) (snd (al_step s (ARem i cb))).
 Proof.
-  intros s i I Hi. unfold al_step_ok, al_step, al_remove. cbn [alloc_fails ref_step].
+  intros s i cb I Hi. unfold al_step_ok, al_step, al_remove. cbn [alloc_fails ref_step].
   rewrite al_get_index_spec by auto. rewrite (al_contents_zlen s I).
   assert (I2 := I). destruct I2 as (H1 & H2 & H3).
   destruct (norm_index (asize s) i) as [p|] eqn:P.
@@ -384,13 +386,13 @@ Proof.
   rewrite to_int_small by lia. split.
   - unfold al_inv. cbn [asize acap nodes]. rewrite shift_down_zlen. lia.
   - unfold al_contents. cbn [asize nodes]. rewrite contents_remove_at by lia.
-    rewrite znth_firstn by lia. reflexivity.
+    rewrite znth_firstn by lia. destruct cb; reflexivity.
 Qed.
 
 Theorem al_step_refines : forall s o, al_inv s -> al_op_ok o ->
   al_step_ok s o (fst (al_step s o)) (snd (al_step s o)).
 Proof.
-  intros s o I Hok. destruct o as [i d ok | i d ok | i | | c ok]; cbn [al_op_ok] in Hok.
+  intros s o I Hok. destruct o as [i d ok | i d ok | i cb | cb | c ok]; cbn [al_op_ok] in Hok.
   - now apply al_insert_refines.
   - now apply al_append_refines.
   - now apply al_remove_refines.
@@ -494,7 +496,7 @@ Qed.
 Example al_example :
   exists s, al_init 1 true = Some s /\
     let ops := [AIns 0 11 true; AIns (-1) 12 true; AApp (-2) 13 true; AIns 3 14 true; AApp 0 15 false;
-                ARem (-4); AApp (-1) 16 true; AIns 1 17 false; AIns 1 17 true; ARem 9; ARem 0] in
+                ARem (-4) true; AApp (-1) 16 true; AIns 1 17 false; AIns 1 17 true; ARem 9 false; ARem 0 false] in
     al_contents (fst (al_run s ops)) = [17; 13; 11; 16] /\
     fail_flags s ops = [false; false; false; false; false; false; false; true; false; false; false] /\
     acap (fst (al_run s ops)) = 8.
